@@ -497,6 +497,23 @@ proof {
 }
 }
 
+pub axiom fn ax_ref_cmp_f64()
+    ensures <&f64 as PartialOrdSpec<&f64>>::obeys_partial_cmp_spec(),
+        forall|a: &f64, b: &f64| #[trigger] <&f64 as PartialOrdSpec<&f64>>::partial_cmp_spec(&a, &b) == fcmp(*a, *b);
+
+// ---- extracted from src/solve/data.rs: impl RegretParams / fn regret_match ----
+pub fn regret_match__counts_towards_norm(v: &f64) -> (out: bool)
+    ensures
+        // the normaliser sums every strictly positive regret and nothing negative (whether zeros are
+        // included makes no difference to a sum)
+        fgt(*v, 0.0f64) ==> out, // @ob C08.V.regret_match.norm_over_positive
+        out ==> fge(*v, 0.0f64), // @ob C08.V.regret_match.norm_over_positive
+{
+broadcast use fl;
+proof { ax_obeys(); ax_ref_cmp_f64(); }
+v > &0.0
+}
+
 
 // vacuity canary: must be REJECTED by the verifier (an inconsistent axiom set would accept it)
 pub proof fn __canary_must_fail()
